@@ -233,6 +233,8 @@ func (l *Lexer) NextToken() token.Token {
 			l.readChar()
 			t = newToken(token.BITWISE_OR, l.char, line, index)
 			t.Literal = "|="
+		default: // lone "|"
+			t = newToken(token.ILLEGAL, l.char, line, index)
 		}
 	case '&':
 		switch l.peekChar() {
@@ -250,12 +252,16 @@ func (l *Lexer) NextToken() token.Token {
 			l.readChar()
 			t = newToken(token.BITWISE_AND, l.char, line, index)
 			t.Literal = "&="
+		default: // lone "&"
+			t = newToken(token.ILLEGAL, l.char, line, index)
 		}
 	case '^':
 		if l.peekChar() == '=' { // "^="
 			l.readChar()
 			t = newToken(token.BITWISE_XOR, l.char, line, index)
 			t.Literal = "^="
+		} else { // lone "^"
+			t = newToken(token.ILLEGAL, l.char, line, index)
 		}
 	case '+':
 		if l.peekChar() == '=' {
@@ -275,6 +281,9 @@ func (l *Lexer) NextToken() token.Token {
 				l.readChar()
 				t = newToken(token.RIGHT_SHIFT, l.char, line, index)
 				t.Literal = ">>="
+			} else { // ">>" is not an operator
+				t = newToken(token.ILLEGAL, l.char, line, index)
+				t.Literal = ">>"
 			}
 		case '=': // ">="
 			l.readChar()
@@ -291,6 +300,9 @@ func (l *Lexer) NextToken() token.Token {
 				l.readChar()
 				t = newToken(token.LEFT_SHIFT, l.char, line, index)
 				t.Literal = "<<="
+			} else { // "<<" is not an operator
+				t = newToken(token.ILLEGAL, l.char, line, index)
+				t.Literal = "<<"
 			}
 		case '=': // ">="
 			l.readChar()
@@ -330,6 +342,8 @@ func (l *Lexer) NextToken() token.Token {
 			l.readChar()
 			t = newToken(token.MULTIPLICATION, l.char, line, index)
 			t.Literal = "*="
+		} else { // lone "*"
+			t = newToken(token.ILLEGAL, l.char, line, index)
 		}
 	case 0x00: // EOF
 		t.Literal = ""
